@@ -2,7 +2,7 @@
    "\path") and the parser (Spec.unescape_keys: a mapping with a key containing "\path" is an escaped literal,
    every key is un-escaped in place) are inverse to each other, and the round trip of C11Proof.C11_roundtrip_eq
    holds on a fragment that admits such mappings (C11E_roundtrip_eq, C11E_leaf).
-   1. strings (unesc_esc, contains_esc, contains_esc_inv)   2. mappings (unescape_escape_map, pfs_escaped, C11E_arg)
+   1. strings (unesc_esc, contains_esc, contains_esc_inv)   2. mappings (unescape_escape_map, fold_dict_put_id, pfs_escaped, C11E_arg)
    3.-4. what is written for a JSON value (wr) and what from_spec makes of it   5. leaves   6. trees
    7. the fragment of C11 is included   8. examples   9. the repaired finding D49; counterexamples. *)
 From Coq Require Import ZArith NArith List Bool String Ascii Lia.
@@ -211,14 +211,83 @@ Qed.
 Lemma has_path_key_nonnil d : has_path_key d = true -> d <> [].
 Proof. intros H ->. discriminate H. Qed.
 
-(* the escaped mapping is recognised by DataPath.from_spec as an escaped literal and handed back un-escaped *)
-Lemma pfs_escaped d : has_path_key d = true -> pfs (escape_map d) = Ok (inr (VDict d)).
+(* from_spec builds the un-escaped mapping as a new dict (dict_put: a key that is == to an earlier one keeps the
+   earlier place and takes the later value): the identity on a mapping whose keys are pairwise not == *)
+Lemma dict_put_fresh k v : forall acc,
+  (forall k', In k' (map fst acc) -> py_eq k k' = false) -> dict_put k v acc = acc ++ [(k, v)].
 Proof.
-  intros H. destruct (unescape_escape_map d H) as [E1 E2]. rewrite E1.
+  induction acc as [|[k2 v2] r IH]; intros H; [reflexivity|].
+  cbn [dict_put app]. rewrite (H k2) by (left; reflexivity).
+  f_equal. apply IH. intros k' Hin. apply H. right. exact Hin.
+Qed.
+
+Lemma fold_dict_put_app d : forall acc,
+  (forall k k', In k (map fst d) -> In k' (map fst acc) -> py_eq k k' = false) ->
+  keys_distinct (map fst d) = true ->
+  fold_left (fun acc kv => dict_put (fst kv) (snd kv) acc) d acc = acc ++ d.
+Proof.
+  induction d as [|[k v] r IH]; intros acc Hp Hd; [rewrite app_nil_r; reflexivity|].
+  cbn [fold_left fst snd].
+  rewrite dict_put_fresh by (intros k' Hin; apply Hp; [left; reflexivity|exact Hin]).
+  cbn [map fst keys_distinct] in Hd.
+  apply andb_true_iff in Hd as [Hd Hd3]. apply andb_true_iff in Hd as [Hd1 Hd2].
+  apply negb_true_iff in Hd1, Hd2.
+  rewrite IH; [rewrite <- app_assoc; reflexivity| |exact Hd3].
+  intros k1 k' H1 H2. rewrite map_app in H2. apply in_app_or in H2 as [H2|H2].
+  - apply Hp; [right; exact H1|exact H2].
+  - cbn in H2. destruct H2 as [<-|[]].
+    exact (existsb_false_in (fun k2 => py_eq k2 k) _ k1 Hd2 H1).
+Qed.
+
+Theorem fold_dict_put_id d : keys_distinct (map fst d) = true ->
+  fold_left (fun acc kv => dict_put (fst kv) (snd kv) acc) d [] = d.
+Proof. intros H. apply (fold_dict_put_app d []); [intros k k' _ []|exact H]. Qed.
+
+Lemma wf_keys_distinct d : wf_val (VDict d) = true -> keys_distinct (map fst d) = true.
+Proof. rewrite wf_val_dict. intros H. apply andb_true_iff in H as [_ H]. exact H. Qed.
+
+Lemma wf_dict_vals d : wf_val (VDict d) = true -> forallb wf_val (map snd d) = true.
+Proof.
+  rewrite wf_val_dict. intros H. apply andb_true_iff in H as [H _].
+  induction d as [|[k x] r IH]; [reflexivity|].
+  cbn [wf_ents] in H. fold wf_ents in H.
+  apply andb_true_iff in H as [H H4]. apply andb_true_iff in H as [_ H3].
+  cbn [map snd forallb]. rewrite H3. exact (IH H4).
+Qed.
+
+(* keyword names that are pairwise different are pairwise not == as keys *)
+Lemma keys_distinct_skv (items : list (string * pyval)) :
+  str_nodup (map fst items) = true -> keys_distinct (map fst (map skv items)) = true.
+Proof.
+  induction items as [|[k v] r IH]; [reflexivity|].
+  cbn [map fst skv str_nodup keys_distinct]. intros H. apply andb_true_iff in H as [H1 H2]. apply negb_true_iff in H1.
+  rewrite (IH H2), andb_true_r.
+  assert (E1 : existsb (py_eq (VStr k)) (map fst (map skv r)) = existsb (String.eqb k) (map fst r)).
+  { clear. induction r as [|[k2 v2] r IH]; [reflexivity|]. cbn [map fst skv existsb]. rewrite IH. reflexivity. }
+  assert (E2 : existsb (fun k2 => py_eq k2 (VStr k)) (map fst (map skv r)) = existsb (String.eqb k) (map fst r)).
+  { clear. induction r as [|[k2 v2] r IH]; [reflexivity|]. cbn [map fst skv existsb]. rewrite IH.
+    f_equal. cbn [py_eq]. apply String.eqb_sym. }
+  rewrite E1, E2, H1. reflexivity.
+Qed.
+
+(* the escaped mapping is recognised by DataPath.from_spec as an escaped literal and handed back un-escaped
+   (as a new dict: the keys of d must be pairwise not ==, as they are in any Python dict; see
+   pfs_escaped_counterexample_dup) *)
+Lemma pfs_escaped d : has_path_key d = true -> keys_distinct (map fst d) = true ->
+  pfs (escape_map d) = Ok (inr (VDict d)).
+Proof.
+  intros H Hd. destruct (unescape_escape_map d H) as [E1 E2]. rewrite E1.
   destruct d as [|kv r]; [discriminate H|].
   unfold path_from_spec, path_from_spec0. cbn [map] in *. destruct (esc_kv kv) as [k0 v0].
-  rewrite E2. reflexivity.
+  rewrite E2. cbn [bind]. rewrite (fold_dict_put_id (kv :: r) Hd). reflexivity.
 Qed.
+
+(* without distinct keys (not a Python dict): the model list [("path",1);("path",2)] comes back as [("path",2)] *)
+Example pfs_escaped_counterexample_dup :
+  let d := [(VStr "path", VInt 1); (VStr "path", VInt 2)] in
+  has_path_key d = true /\ keys_distinct (map fst d) = false /\
+  pfs (escape_map d) = Ok (inr (VDict [(VStr "path", VInt 2)])).
+Proof. vm_compute. repeat split. Qed.
 
 (* (the values are written raw: they must be plain data at every depth) *)
 Theorem val_to_json_escaped cast d : has_path_key d = true -> forallb (fun kv => deep_plain (snd kv)) d = true ->
@@ -241,23 +310,25 @@ Proof.
   rewrite escape_map_eq. destruct (has_path_key d); [|reflexivity]. rewrite !json_pure_dict. apply jp_ents_esc.
 Qed.
 
-Theorem coerce_escaped d : has_path_key d = true ->
+Theorem coerce_escaped d : has_path_key d = true -> keys_distinct (map fst d) = true ->
   coerce pfs (escape_map d) = Ok (CDict (map inr_kv d)) /\ cval (CDict (map inr_kv d)) = ALit (VDict d).
 Proof.
-  intros H. split.
-  - pose proof (pfs_escaped d H) as E. destruct (unescape_escape_map d H) as [E1 _]. rewrite E1 in *.
+  intros H Hd. split.
+  - pose proof (pfs_escaped d H Hd) as E. destruct (unescape_escape_map d H) as [E1 _]. rewrite E1 in *.
     unfold coerce. rewrite E. reflexivity.
   - cbn [coerced_val]. rewrite item_val_inr_kv. reflexivity.
 Qed.
 
+(* (keys_distinct: the keys are pairwise not ==, part of wf_val (VDict d); needed since from_spec builds the
+   un-escaped mapping as a new dict, see pfs_escaped_counterexample_dup) *)
 Theorem C11E_arg : forall d,
-  has_path_key d = true -> json_pure (VDict d) = true ->
+  has_path_key d = true -> json_pure (VDict d) = true -> keys_distinct (map fst d) = true ->
   val_to_json X false (VDict d) = Ok (escape_map d) /\ json_pure (escape_map d) = true /\
   exists cv, coerce pfs (escape_map d) = Ok cv /\ cval cv = ALit (VDict d).
 Proof.
-  intros d H Hj. split; [exact (val_to_json_escaped false d H (deep_plain_vals d Hj))|].
+  intros d H Hj Hd. split; [exact (val_to_json_escaped false d H (deep_plain_vals d Hj))|].
   split; [rewrite json_pure_escape_map; exact Hj|].
-  destruct (coerce_escaped d H) as [E1 E2]. eexists. split; [exact E1|exact E2].
+  destruct (coerce_escaped d H Hd) as [E1 E2]. eexists. split; [exact E1|exact E2].
 Qed.
 
 (* ================================================================== *)
@@ -334,24 +405,28 @@ Definition plain3 (v : pyval) : bool :=
   | _ => true
   end.
 
-Lemma try_path_wr_item v : item3 v = true -> try_path pfs (wr_item v) = Ok (inr v).
+Lemma try_path_wr_item v : item3 v = true -> wf_val v = true -> try_path pfs (wr_item v) = Ok (inr v).
 Proof.
-  destruct v; try (intros _; apply try_path_item2; reflexivity).
-  cbn [item3 wr_item]. destruct (has_path_key d) eqn:E; cbn [orb]; intros H.
-  - unfold try_path. rewrite (pfs_escaped d E). reflexivity.
+  destruct v; try (intros _ _; apply try_path_item2; reflexivity).
+  cbn [item3 wr_item]. destruct (has_path_key d) eqn:E; cbn [orb]; intros H Hw.
+  - unfold try_path. rewrite (pfs_escaped d E (wf_keys_distinct d Hw)). reflexivity.
   - rewrite (escape_map_okkeys d H). apply try_path_item2. exact H.
 Qed.
 
-Lemma coerce_items_wr l : forallb item3 l = true -> coerce_items pfs (map wr_item l) = Ok (map inr l).
+Lemma coerce_items_wr l : forallb item3 l = true -> forallb wf_val l = true ->
+  coerce_items pfs (map wr_item l) = Ok (map inr l).
 Proof.
   induction l as [|v l IH]; cbn [forallb coerce_items map]; [reflexivity|].
-  intros H. apply andb_true_iff in H as [Hv Hl]. rewrite (try_path_wr_item v Hv), (IH Hl). reflexivity.
+  intros H Hw. apply andb_true_iff in H as [Hv Hl]. apply andb_true_iff in Hw as [Hwv Hwl].
+  rewrite (try_path_wr_item v Hv Hwv), (IH Hl Hwl). reflexivity.
 Qed.
 
-Lemma coerce_kvs_wr d : forallb item3 (map snd d) = true -> coerce_kvs pfs (wr_vals d) = Ok (map inr_kv d).
+Lemma coerce_kvs_wr d : forallb item3 (map snd d) = true -> forallb wf_val (map snd d) = true ->
+  coerce_kvs pfs (wr_vals d) = Ok (map inr_kv d).
 Proof.
   unfold wr_vals. induction d as [|[k v] r IH]; cbn [map fst snd forallb coerce_kvs]; [reflexivity|].
-  intros H. apply andb_true_iff in H as [Hv Hr]. rewrite (try_path_wr_item v Hv). cbn [bind]. rewrite (IH Hr). reflexivity.
+  intros H Hw. apply andb_true_iff in H as [Hv Hr]. apply andb_true_iff in Hw as [Hwv Hwr].
+  rewrite (try_path_wr_item v Hv Hwv). cbn [bind]. rewrite (IH Hr Hwr). reflexivity.
 Qed.
 
 (* okkeys looks at the keys only *)
@@ -370,17 +445,18 @@ Qed.
 Lemma not_tuple_pure v : json_pure v = true -> match v with VTuple _ => False | _ => True end.
 Proof. destruct v; try discriminate; exact (fun _ => I). Qed.
 
-Lemma coerce_wr v : json_pure v = true -> plain3 v = true -> exists cv, coerce pfs (wr v) = Ok cv /\ cval cv = ALit v.
+Lemma coerce_wr v : json_pure v = true -> plain3 v = true -> wf_val v = true ->
+  exists cv, coerce pfs (wr v) = Ok cv /\ cval cv = ALit v.
 Proof.
-  intros Hj H. destruct v; try discriminate Hj; try (eexists; split; reflexivity).
+  intros Hj H Hw. destruct v; try discriminate Hj; try (eexists; split; reflexivity).
   - cbn [plain3] in H. exists (CSeq false (map inr l)). split.
-    + cbn [wr coerce]. rewrite (coerce_items_wr l H). reflexivity.
+    + cbn [wr coerce]. rewrite (coerce_items_wr l H Hw). reflexivity.
     + cbn [coerced_val]. rewrite item_val_inr. reflexivity.
   - cbn [plain3 wr] in *. destruct (has_path_key d) eqn:E; cbn [orb] in H.
-    + destruct (coerce_escaped d E) as [E1 E2]. eexists. split; [exact E1|exact E2].
+    + destruct (coerce_escaped d E (wf_keys_distinct d Hw)) as [E1 E2]. eexists. split; [exact E1|exact E2].
     + apply andb_true_iff in H as [Hk Hv]. exists (CDict (map inr_kv d)). split.
       * unfold coerce. rewrite pfs_okmap by (unfold wr_vals; rewrite okkeys_map_vals; exact Hk).
-        rewrite (coerce_kvs_wr d Hv). reflexivity.
+        rewrite (coerce_kvs_wr d Hv (wf_dict_vals d Hw)). reflexivity.
       * cbn [coerced_val]. rewrite item_val_inr_kv. reflexivity.
 Qed.
 
@@ -417,10 +493,11 @@ Proof.
   intros H. apply andb_true_iff in H as [Hv Hr]. rewrite (wr_item_noesc v Hv), (IH Hr). reflexivity.
 Qed.
 
-Lemma try_path_wr_sub v : sub3 v = true -> try_path pfs (wr_item v) = Ok (inr v).
+Lemma try_path_wr_sub v : sub3 v = true -> wf_val v = true -> try_path pfs (wr_item v) = Ok (inr v).
 Proof. exact (try_path_wr_item v). Qed.
 
-Lemma coerce_items_sub l : forallb sub3 l = true -> coerce_items pfs (map wr_item l) = Ok (map inr l).
+Lemma coerce_items_sub l : forallb sub3 l = true -> forallb wf_val l = true ->
+  coerce_items pfs (map wr_item l) = Ok (map inr l).
 Proof. exact (coerce_items_wr l). Qed.
 
 Definition kw_map (f : pyval -> pyval) (items : list (string * pyval)) : list (string * pyval) :=
@@ -600,10 +677,10 @@ Definition q_frag3 (q : dsl) : bool :=
 
 Lemma tail_one3 c q v :
   class_ok c q = true -> q_shape q = (1, false, false)%nat -> q_call q = (q_method q, [v], []) ->
-  json_pure v = true -> plain3 v = true ->
+  json_pure v = true -> plain3 v = true -> wf_val v = true ->
   exists t, leaf_tail (scls_class c) (q_method q) (q_ctor c q) (wr v) = Ok (t, leaf_result c q).
 Proof.
-  intros Hcls Hs Hq Hj Hpl. destruct (coerce_wr v Hj Hpl) as [cv [Hc Hv]]. eexists.
+  intros Hcls Hs Hq Hj Hpl Hw. destruct (coerce_wr v Hj Hpl Hw) as [cv [Hc Hv]]. eexists.
   apply (tail_ok c q (wr v) cv [v] [] Hcls Hc).
   - rewrite Hs. cbn [dispatch_by Nat.eqb negb andb]. rewrite Hv. reflexivity.
   - pose proof (tie_build c q Hcls) as Hb. unfold built in Hb. rewrite Hq in Hb. exact Hb.
@@ -611,12 +688,12 @@ Qed.
 
 Lemma tail_star3 c q l :
   class_ok c q = true -> q_shape q = (0, true, false)%nat -> q_call q = (q_method q, l, []) ->
-  forallb sub3 l = true ->
+  forallb sub3 l = true -> forallb wf_val l = true ->
   exists t, leaf_tail (scls_class c) (q_method q) (q_ctor c q) (VList (map wr_item l)) = Ok (t, leaf_result c q).
 Proof.
-  intros Hcls Hs Hq Hpl. eexists.
+  intros Hcls Hs Hq Hpl Hw. eexists.
   assert (Hc : coerce pfs (VList (map wr_item l)) = Ok (CSeq false (map inr l)))
-    by (cbn [coerce]; rewrite (coerce_items_sub l Hpl); reflexivity).
+    by (cbn [coerce]; rewrite (coerce_items_sub l Hpl Hw); reflexivity).
   apply (tail_ok c q (VList (map wr_item l)) _ l [] Hcls Hc).
   - rewrite Hs. cbn [dispatch_by Nat.eqb negb andb]. rewrite item_arg_inr. reflexivity.
   - pose proof (tie_build c q Hcls) as Hb. unfold built in Hb. rewrite Hq in Hb. exact Hb.
@@ -650,10 +727,11 @@ Qed.
 Lemma tail_items_esc c q items :
   class_ok c q = true -> q_shape q = (0, false, true)%nat ->
   build_leaf T idlit (scls_name c) (q_method q) [] items = Ok (expected_leaf c q) ->
-  items_have_path items = true ->
+  items_have_path items = true -> str_nodup (map fst items) = true ->
   exists t, leaf_tail (scls_class c) (q_method q) (q_ctor c q) (escape_map (map skv items)) = Ok (t, leaf_result c q).
 Proof.
-  intros Hcls Hs Hb Hp. rewrite <- has_path_key_skv in Hp. destruct (coerce_escaped _ Hp) as [Hc _]. eexists.
+  intros Hcls Hs Hb Hp Hnd. rewrite <- has_path_key_skv in Hp.
+  destruct (coerce_escaped _ Hp (keys_distinct_skv items Hnd)) as [Hc _]. eexists.
   apply (tail_ok c q _ _ [] items Hcls Hc); [|exact Hb].
   rewrite Hs; cbn [dispatch_by Nat.eqb Nat.ltb Nat.leb negb andb]. rewrite map_map.
   change (fun x : string * pyval => inr_kv (skv x)) with (fun kv : string * pyval => (VStr (fst kv), @inr (pathterm pyval) pyval (snd kv))).
@@ -662,25 +740,29 @@ Qed.
 
 Lemma leaf_tail3 c q :
   class_ok c q = true -> forallb json_pure (q_args q) = true -> q_frag3 q = true ->
+  forallb wf_val (q_args q) = true -> q_nodup q = true ->
   exists t, leaf_tail (scls_class c) (q_method q) (q_ctor c q) (q_json3 q) = Ok (t, leaf_result c q).
 Proof.
-  intros Hcls Hj Hf.
+  intros Hcls Hj Hf Hw Hnd.
   assert (Hkw : forall r, built_kw c q = Some r -> r = Ok (expected_leaf c q))
     by (intros r; apply tie_build_kw; exact Hcls).
-  unfold q_args in Hj.
-  destruct q; cbn [q_json3 q_form q_frag3] in *; cbn [q_call app map snd forallb] in Hj; rewrite ?andb_true_r in Hj;
+  unfold q_args in Hj. rewrite q_args_form in Hw.
+  destruct q; cbn [q_json3 q_form q_frag3 q_nodup form_args] in *; cbn [q_call app map snd forallb] in Hj;
+    rewrite ?andb_true_r in Hj;
     first [ apply tail_zero; [exact Hcls|reflexivity|reflexivity]
-          | apply tail_one3; [exact Hcls|reflexivity|reflexivity|exact Hj|exact Hf]
+          | apply tail_one3; [exact Hcls|reflexivity|reflexivity|exact Hj|exact Hf|
+                              cbn [forallb] in Hw; rewrite andb_true_r in Hw; exact Hw]
           | apply tail_kw3; [exact Hcls|left; reflexivity|exact (Hkw _ eq_refl)|reflexivity|
-                             intros kv Hin; apply try_path_wr_sub; exact (in_items_snd sub3 _ kv Hf Hin)]
-          | apply tail_star3; [exact Hcls|reflexivity|reflexivity|exact Hf]
+                             intros kv Hin; apply try_path_wr_sub;
+                             [exact (in_items_snd sub3 _ kv Hf Hin)|exact (in_items_snd wf_val _ kv Hw Hin)]]
+          | apply tail_star3; [exact Hcls|reflexivity|reflexivity|exact Hf|exact Hw]
           | idtac ].
   pose proof (tie_build c (Q_items_contain items) Hcls) as Hb.
   destruct (items_have_path items) eqn:E; cbn [orb] in Hf.
-  - apply tail_items_esc; [exact Hcls|reflexivity|exact Hb|exact E].
+  - apply tail_items_esc; [exact Hcls|reflexivity|exact Hb|exact E|exact Hnd].
   - apply andb_true_iff in Hf as [Hok Hit].
     apply tail_kw3; [exact Hcls|right; reflexivity|exact Hb|exact Hok|].
-    intros kv Hin. apply try_path_wr_item. exact (in_items_snd item3 _ kv Hit Hin).
+    intros kv Hin. apply try_path_wr_item; [exact (in_items_snd item3 _ kv Hit Hin)|exact (in_items_snd wf_val _ kv Hw Hin)].
 Qed.
 
 Lemma casts_false c q : casts c q = false -> typed c = false /\ q_is_inst q = false.
@@ -689,13 +771,14 @@ Proof. unfold casts. intros H. apply orb_false_iff in H. exact H. Qed.
 (* what is written for a leaf parses (at any positive fuel) to the leaf *)
 Lemma leaf_json3_parse c q f :
   class_ok c q = true -> casts c q = false -> forallb json_pure (q_args q) = true -> q_frag3 q = true ->
+  forallb wf_val (q_args q) = true -> q_nodup q = true ->
   exists t, self1 (S f) (leaf_json3 c q) = Ok (t, leaf_result c q).
 Proof.
-  intros Hcls Hc Hj Hf. destruct (casts_false c q Hc) as [Ht Hi].
+  intros Hcls Hc Hj Hf Hw Hnd. destruct (casts_false c q Hc) as [Ht Hi].
   unfold leaf_json3.
   rewrite self1_S, (step1_leaf _ _ _ (leaf_key_not_binop c q)), parse_leaf_head, (head_leaf c q Hcls).
   cbn [run_head]. rewrite Ht, Hi. cbn [conv bind].
-  exact (leaf_tail3 c q Hcls Hj Hf).
+  exact (leaf_tail3 c q Hcls Hj Hf Hw Hnd).
 Qed.
 
 (* ================================================================== *)
@@ -744,7 +827,7 @@ Lemma leaf_e_parse c q f : leaf_in_c11e c q = true ->
 Proof.
   unfold leaf_in_c11e, leaf_json_e. destruct (casts c q) eqn:Ec; intros H.
   - destruct (leaf_in_c11_inv c q H) as [Hc [Hp [Ht [_ [Hit _]]]]]. exact (leaf_json_parse c q f Hc Hp Ht Hit).
-  - destruct (leaf_esc_inv c q H) as [Hc [_ [Hf [Hj _]]]]. exact (leaf_json3_parse c q f Hc Ec Hj Hf).
+  - destruct (leaf_esc_inv c q H) as [Hc [_ [Hf [Hj [Hw Hnd]]]]]. exact (leaf_json3_parse c q f Hc Ec Hj Hf Hw Hnd).
 Qed.
 
 Lemma leaf_e_refl_ok c q : leaf_in_c11e c q = true -> leaf_refl_ok (c, q) = true.
@@ -1130,3 +1213,4 @@ Print Assumptions C11E_leaf.
 Print Assumptions C11E_roundtrip_eq.
 Print Assumptions C11E_roundtrip.
 Print Assumptions tree_c11_in_c11e.
+Print Assumptions fold_dict_put_id.
